@@ -92,6 +92,10 @@ def define():
     for i, op in enumerate(FOPS):
         # a splice iterator that is dropped normally reserves f(range, r) elements: symbolic shapes only on fixed-capacity storage
         forget(op, "none", "heap" if (i % 2 == 0 and op != "SpliceItem") else "stack", "B3D" if i % 3 else "W8D")
+    # element types without drop glue (the library branches on drop_fn / needs_drop in these handles)
+    forget("Drain", "none", "stack", "H2")
+    forget("TDrain", "none", "heap", "W8", tier="rot2")
+    forget("Remove", "none", "heap", "H2", tier="rot2")
     for op in FOPS:
         for b in ("heap", "stack", "reloc"):
             if op == "SpliceItem" and b != "stack":
